@@ -62,6 +62,7 @@ fn run_crash(scn: &Scenario, prop: &str, explore: bool) -> RunResult {
     let mut found: Vec<(crate::world::Violation, CrashPoint)> = Vec::new();
     let known: Vec<String> = crate::evidence::load_findings().into_iter().filter(|f| f.status == "known").map(|f| f.signature).collect();
     let mut unknown = 0usize;
+    let soft_ms: u64 = if tier == Tier::Quick { 10_000 } else { 150_000 };
     // model at the start of each segment
     let seg_start_model = |w: &World, si: usize| -> Model {
         let first = w.recs.iter().find(|x| x.seg == si).map(|x| x.i).unwrap_or(0);
@@ -123,11 +124,12 @@ fn run_crash(scn: &Scenario, prop: &str, explore: bool) -> RunResult {
                     }
                     found.push((v, c));
                 }
-                if unknown >= 2 {
+                // soft per-run deadline (real time): bounds coverage only, never a verdict
+                if unknown >= 2 || crate::shim::real_ms() - t0 > soft_ms {
                     break;
                 }
             }
-            if unknown >= 2 {
+            if unknown >= 2 || crate::shim::real_ms() - t0 > soft_ms {
                 break;
             }
         }
@@ -147,6 +149,9 @@ fn run_crash(scn: &Scenario, prop: &str, explore: bool) -> RunResult {
         ("power_lost_rename", st.lost_rename),
         ("recoveries_recorded", st.recovered_records),
         ("nested_crash_images", st.nested_images),
+        ("ms_image_build", st.ms_build),
+        ("ms_image_open", st.ms_open),
+        ("ms_image_open_plus_compare", st.ms_compare),
     ] {
         res.probes.insert(k.to_string(), v);
     }
